@@ -36,7 +36,7 @@ package floatingip
 //@ func [C01,C05,C08,C09] (*crdIpam).createFloatingIP trusted
 //@   requires allocated != nil
 //@   modifies StoreDom, StoreKey, StorePolicy, StoreNode, StoreUid
-//@   ensures result != nil ==> storeUnchanged()
+//@   ensures result != nil ==> storeUnchanged() && result != ErrNoEnoughIP
 //@   ensures result == nil ==> !old(StoreDom)[ipstr(allocated.IP)]
 //@   ensures result == nil ==> StoreDom == old(StoreDom)[ipstr(allocated.IP) := true] && StoreKey == old(StoreKey)[ipstr(allocated.IP) := allocated.Key] && StorePolicy == old(StorePolicy)[ipstr(allocated.IP) := allocated.Policy] && StoreNode == old(StoreNode)[ipstr(allocated.IP) := allocated.NodeName] && StoreUid == old(StoreUid)[ipstr(allocated.IP) := allocated.PodUid]
 //@ func [C01,C05,C08,C09] (*crdIpam).deleteFloatingIP trusted
@@ -110,3 +110,53 @@ package floatingip
 //@   requires inv(ci) && held[ptr(ci.cacheLock)] == 0
 //@   ensures [C01,C09] inv(ci)
 //@   modifies map(ci.allocatedFIPs), map(ci.unallocatedFIPs), FloatingIP.Key, FloatingIP.Policy, FloatingIP.UpdatedAt, FloatingIP.NodeName, FloatingIP.PodUid, FloatingIP.Labels
+
+// ---- ReserveIP: re-keys exactly the entries keyed oldK; stops at the first store failure ----
+// (entries already re-keyed before a later failure stay re-keyed in memory AND in the store: synced holds on every exit)
+//@ func [C01,C02,C05,C19] (*crdIpam).ReserveIP
+//@   requires inv(ci) && synced(ci) && held[ptr(ci.cacheLock)] == 0
+//@   ensures [C01,C05] inv(ci)
+//@   ensures [C05] synced(ci)
+//@   ensures [C01:reserve-frame] tablesSame(ci) && ciFieldsSame(ci)
+//@   ensures [C01,C04:reserve-only-own-key] forall p *FloatingIP :: allocated(p) && old(p.Key) != oldK ==> sameEntry(p)
+//@   ensures [C02:reserve-rekeys] forall p *FloatingIP :: allocated(p) && old(p.Key) == oldK ==> (p.Key == oldK || p.Key == newK) && p.IP == old(p.IP) && p.pool == old(p.pool)
+//@   ensures [C02:reserve-all-on-success] result1 == nil && oldK != newK ==> forall k string :: k in ci.allocatedFIPs ==> ci.allocatedFIPs[k].Key != oldK
+//@   modifies FloatingIP.Key, FloatingIP.Policy, FloatingIP.UpdatedAt, FloatingIP.NodeName, FloatingIP.PodUid, fresh FloatingIP.IP, fresh FloatingIP.pool, fresh FloatingIP.Labels, StoreKey, StorePolicy, StoreNode, StoreUid
+//@   loop 0 invariant held[ptr(ci.cacheLock)] == 2 && inv(ci) && synced(ci) && tablesSame(ci) && ciFieldsSame(ci) && StoreDom == old(StoreDom)
+//@   loop 0 invariant forall p *FloatingIP :: allocated(p) && old(p.Key) != oldK ==> sameEntry(p)
+//@   loop 0 invariant forall p *FloatingIP :: allocated(p) && old(p.Key) == oldK ==> (p.Key == oldK || p.Key == newK) && p.IP == old(p.IP) && p.pool == old(p.pool)
+//@   loop 0 invariant oldK != newK ==> forall k string :: visited[k] && k in ci.allocatedFIPs ==> ci.allocatedFIPs[k].Key != oldK
+
+//@ pure hasSubnet(pool *FloatingIPPool, s string) bool = s in pool.nodeSubnets
+//@ pure inTable(m map[string]*FloatingIP, p *FloatingIP) bool = exists k string :: k in m && m[k] == p
+
+// ---- AllocateInSubnetWithKey: re-keys ONE entry keyed oldK whose pool lists the subnet, the most recently updated one ----
+//@ func [C01,C02,C05,C19] (*crdIpam).AllocateInSubnetWithKey
+//@   requires inv(ci) && synced(ci) && held[ptr(ci.cacheLock)] == 0
+//@   requires 0 <= attr.Policy && attr.Policy < 65536
+//@   ensures [C01,C05] inv(ci)
+//@   ensures [C05] synced(ci)
+//@   ensures [C01:rekey-frame] tablesSame(ci) && ciFieldsSame(ci)
+//@   ensures [C02,C01:rekey-one-prefix-entry] result == nil ==> exists p *FloatingIP :: allocated(p) && inTable(ci.allocatedFIPs, p) && old(p.Key) == oldK && hasSubnet(p.pool, subnet) && attrApplied(p, newK, attr) && p.IP == old(p.IP) && p.pool == old(p.pool) && entriesSameExcept(p) && (forall k string :: k in ci.allocatedFIPs && old(ci.allocatedFIPs[k].Key) == oldK && hasSubnet(ci.allocatedFIPs[k].pool, subnet) ==> unixNano(old(ci.allocatedFIPs[k].UpdatedAt)) <= unixNano(old(p.UpdatedAt)) || unixNano(old(ci.allocatedFIPs[k].UpdatedAt)) <= 0)
+//@   ensures [C05,C01:rekey-failure-atomic] result != nil ==> storeUnchanged() && forall p *FloatingIP :: allocated(p) ==> sameEntry(p)
+//@   modifies FloatingIP.Key, FloatingIP.Policy, FloatingIP.UpdatedAt, FloatingIP.NodeName, FloatingIP.PodUid, fresh FloatingIP.IP, fresh FloatingIP.pool, fresh FloatingIP.Labels, StoreKey, StorePolicy, StoreNode, StoreUid
+//@   loop 0 invariant latest == nil ==> recordTs == 0
+//@   loop 0 invariant latest != nil ==> allocated(latest) && inTable(ci.allocatedFIPs, latest) && latest.Key == oldK && hasSubnet(latest.pool, subnet) && recordTs == unixNano(latest.UpdatedAt) && recordTs > 0
+//@   loop 0 invariant forall k string :: visited[k] && k in ci.allocatedFIPs && ci.allocatedFIPs[k].Key == oldK && hasSubnet(ci.allocatedFIPs[k].pool, subnet) ==> unixNano(ci.allocatedFIPs[k].UpdatedAt) <= recordTs
+
+//@ pure netstr(n *net.IPNet) string = netString(n.IP, n.Mask)
+//@ pure allEntriesSame() bool = forall p *FloatingIP :: allocated(p) ==> sameEntry(p)
+
+// ---- AllocateInSubnet: hands out only an IP that was free and whose pool lists the node subnet ----
+//@ func [C01,C05,C06,C09,C19] (*crdIpam).AllocateInSubnet
+//@   requires inv(ci) && synced(ci) && held[ptr(ci.cacheLock)] == 0
+//@   requires 0 <= attr.Policy && attr.Policy < 65536
+//@   ensures [C01,C05] inv(ci)
+//@   ensures [C05] synced(ci)
+//@   ensures [C01:alloc-frame] allEntriesSame() && ciFieldsSame(ci)
+//@   ensures [C01,C06,C09:alloc-only-free-routable] result1 == nil ==> exists k string :: old(k in ci.unallocatedFIPs) && old(hasSubnet(ci.unallocatedFIPs[k].pool, netstr(nodeSubnet))) && k in ci.allocatedFIPs && !(k in ci.unallocatedFIPs) && attrApplied(ci.allocatedFIPs[k], key, attr) && fresh(ci.allocatedFIPs[k]) && ci.allocatedFIPs[k].pool == old(ci.unallocatedFIPs[k].pool) && ci.allocatedFIPs[k].IP == old(ci.unallocatedFIPs[k].IP) && tablesSameExcept(ci, k)
+//@   ensures [C06:alloc-noip-means-none-routable] result1 == ErrNoEnoughIP && nodeSubnet != nil ==> forall k string :: k in ci.unallocatedFIPs ==> !hasSubnet(ci.unallocatedFIPs[k].pool, netstr(nodeSubnet))
+//@   ensures [C05,C01:alloc-failure-atomic] result1 != nil ==> tablesSame(ci) && storeUnchanged()
+//@   modifies map(ci.allocatedFIPs), map(ci.unallocatedFIPs), fresh FloatingIP.*, StoreDom, StoreKey, StorePolicy, StoreNode, StoreUid, fresh elemsof(byte)
+//@   loop 0 invariant held[ptr(ci.cacheLock)] == 2 && inv(ci) && synced(ci) && tablesSame(ci) && storeUnchanged() && ciFieldsSame(ci) && allEntriesSame()
+//@   loop 0 invariant forall k string :: visited[k] && k in ci.unallocatedFIPs ==> !hasSubnet(ci.unallocatedFIPs[k].pool, nodeSubnetStr)
